@@ -355,6 +355,17 @@ pub fn nack_spaces(tier: Tier, _seed: u64) -> Vec<CfgSpace> {
         }
         fb_wrap(Kind::Transport, Fci::Nack(seqs), k)
     }));
+    // pairs and triples at every power-of-two distance (wrap-around of the 16-bit difference)
+    let w16 = u16_walk();
+    let n16 = w16.len() as u64;
+    let firsts: [u16; 8] = [0, 1, 0x1234, 0x7FFF, 0x8000, 0xFFEF, 0xFFFE, 0xFFFF];
+    v.push(CfgSpace::new("nack-pairs-at-walk-distances", 8 * n16 * n16, move |idx| {
+        let a = firsts[(idx % 8) as usize];
+        let d1 = w16[((idx / 8) % n16) as usize];
+        let d2 = w16[(idx / 8 / n16) as usize];
+        let seqs = vec![a.wrapping_add(d1), a, a.wrapping_add(d1).wrapping_add(d2)];
+        fb_wrap(Kind::Transport, Fci::Nack(seqs), idx % FB_WRAPS)
+    }));
     v.push(CfgSpace::new("nack-strided-and-full", 8, move |idx| {
         let seqs: Vec<u16> = match idx {
             0 => (0..=65535u32).map(|x| x as u16).collect(),
@@ -484,7 +495,9 @@ pub fn unknown_spaces(tier: Tier, _seed: u64) -> Vec<CfgSpace> {
 /// Every builder-side configuration space (all of them produce representable configurations,
 /// except where a PRIV length fell back — see above).
 pub fn all_valid_spaces(tier: Tier, seed: u64) -> Vec<CfgSpace> {
-    let mut v = sr_rr_spaces(tier, seed);
+    // the k=3 field-deviation space of the thorough tier belongs to C02/C09 (field values); the
+    // properties that use this union are about sizes, buffers and layout, for which k=2 says it all
+    let mut v = sr_rr_spaces(Tier::Quick, seed);
     v.extend(sdes_spaces(tier, seed));
     v.extend(bye_spaces(tier, seed));
     v.extend(app_spaces(tier, seed));
